@@ -98,6 +98,41 @@ class NativeVC:
                 self._intern[key] = _Opaque(tag, k)
         return self._intern[key]
 
+    def _from_json(self, d, j):
+        if d == "int":
+            return int(j)
+        if d == "bool":
+            return bool(j)
+        if d == "none":
+            return None
+        if isinstance(d, str) and d.startswith("obj"):
+            if j is None:
+                return None
+            return self._mk_opaque(d.split(":", 1)[1] if ":" in d else "obj", j)
+        if d[0] == "tuple":
+            return tuple(self._from_json(s, x) for s, x in zip(d[1:], j))
+        if d[0] == "opt":
+            return None if j is None else self._from_json(d[1], j)
+        if d[0] == "dc":
+            return d[1](**{n: self._from_json(s, x) for (n, s), x in zip(d[2], j)})
+        raise ReplayInvalid(f"bad descriptor {d!r}")
+
+    def lock_discipline(self, name, label):
+        return 0
+
+    def map(self, name, key=None, val=None, default=None, inv=None):
+        pairs = [(self._from_json(key, k), self._from_json(val, v)) for k, v in self._get(name)]
+        if default is not None:
+            import collections
+
+            return collections.defaultdict(default, pairs)
+        return dict(pairs)
+
+    def copy(self, v):
+        import copy
+
+        return copy.copy(v)
+
     def intset(self, name, probe=None):
         return frozenset(self._get(name))
 
